@@ -48,7 +48,12 @@ Record thr := Thr { th_name : bytes; th_id : bytes }.
 
 (** A span in scope: its name and its field groups — the fields given at creation, then one group per
     later [record] call ([on_record] -> [add_fields] appends). *)
-Record span := Span { s_name : bytes; s_groups : list (list (bytes * bytes)); s_target : bytes (* Pretty shows it *) }.
+Record span := Span {
+  s_name : bytes;
+  s_groups : list (list (bytes * bytes));
+  s_target : bytes;      (* Pretty shows it *)
+  s_poisoned : bool      (* a [Span::record] call on it unwound (a recorded value's Debug impl panicked, the caller caught it) *)
+}.
 
 (** An event reaching [on_event].  Its fields are visited in order; a field's [Debug] impl may emit
     another event before producing its text ([FNested]), may unwind after writing [pre] ([FPanic]) or
@@ -573,3 +578,20 @@ Definition rec_step (atomic : bool) (add : bytes -> list (bytes * bytes) -> byte
 
 Definition rec_run (atomic : bool) add gs (init : bytes) (sched : list nat) : rstate :=
   fold_left (rec_step atomic add gs) sched (RS init [] []).
+
+(** ** A span whose [record] call unwound (finding F132)
+
+    [on_record] runs the recorded value's [Debug] impl while it holds the span's extensions WRITE guard
+    ([on_record_atomic]); when that impl panics, the unwinding drops the guard and — with the std locks — POISONS the
+    lock.  From then on [SpanRef::extensions()] / [extensions_mut()] ([.expect("Mutex poisoned")], registry/sharded.rs)
+    panic for that span: every formatter reads the extensions of every span in the event's scope, so [format_event]
+    unwinds for every later event (and lifecycle record) that has the span in scope — an innocent event reaches the layer
+    and no record is written (the emitting call panics); every later [record] on the span unwinds too.  With the
+    [parking_lot] feature the lock does not poison ([poisons = false]). *)
+Definition scope_poisoned (sc : list span) : bool := existsb s_poisoned sc.
+
+Definition guarded (poisons : bool) (fe : emission -> outcome N) (em : emission) : outcome N :=
+  match em with Em _ sc _ => if poisons && scope_poisoned sc then OPanic [] else fe em end.
+
+Definition thread_events_g (fe : emission -> outcome N) (sc : spancfg) (timing : bool) (ops : list op) : list (event N emeta) :=
+  map (gev_of fe) (flat_map (expand sc timing) ops).
